@@ -374,7 +374,7 @@ def main_check(prop, tier, seed, replay=None, workers=None):
         "wall_s": round(time.monotonic() - t0, 2),
         "violations": n_real,
     }
-    if not replay:
+    if not replay and not os.environ.get("VERIF_NO_EVIDENCE"):
         (ROOT / "evidence").mkdir(exist_ok=True)
         (ROOT / "evidence" / f"{prop}.json").write_text(json.dumps(evidence, indent=1, sort_keys=True) + "\n")
 
@@ -391,7 +391,7 @@ def main_check(prop, tier, seed, replay=None, workers=None):
                 continue
             shown.add(key)
             path = rdir / f"{seed}-{tier}-w{v['case']['worker']}-c{v['case']['index']}.json"
-            if not replay:
+            if not replay and not os.environ.get("VERIF_NO_EVIDENCE"):
                 path.write_text(json.dumps({"property": prop, "seed": int(seed), "tier": tier, **v}, indent=1))
             print(f"VIOLATION property={prop} replay={path}")
             print(f"  kind={v['kind']} mechanism={v['mechanism']} witness={short(json.dumps(v['witness']), 700)}")
